@@ -307,6 +307,30 @@ def sweep_model(repo, budget, seed, binary=None):
                 covered = set(_expand(names, true_rows[0][:-1]))
                 if not covered <= sat:
                     return {"mode": "climodel", "case": case, "expected": "every assignment the model row covers satisfies the formula", "actual": mod[1][:400]}, checked, ""
+            # `-m -c X -t`: retain is applied first, then the model is taken: the model row must be one row whose assignments
+            # satisfy what `-c X -t` alone prints (the retained diagram), none if that is unsatisfiable
+            for cx in ("true", "false"):
+                checked += 1
+                case = json.dumps({"formula": f, "ordering": None, "options": ["-m", "-c", cx, "-t"], "channel": "model"})
+                base = _run(binary, ["-c", cx, "-t", "--evaluate=" + f], tmp)
+                mc = _run(binary, ["-m", "-c", cx, "-t", "--evaluate=" + f], tmp)
+                if base is None or mc is None:
+                    continue
+                if mc[0] == 101 or "panicked at" in mc[2]:
+                    return {"mode": "climodel", "case": case, "expected": "a table", "actual": "panic: " + mc[2][:300]}, checked, ""
+                pb, pm = _rows(base[1]), _rows(mc[1])
+                if base[0] != 0 or mc[0] != 0 or pb is None or pm is None:
+                    continue
+                bsat = set()
+                for cells in pb[1]:
+                    if cells[-1] == "True":
+                        bsat |= set(_expand(pb[0], cells[:-1]))
+                mtrue = [r_ for r_ in pm[1] if r_[-1] == "True"]
+                if len(mtrue) != (1 if bsat else 0):
+                    return {"mode": "climodel", "case": case, "expected": f"{1 if bsat else 0} satisfying row(s): the model of what `-c {cx} -t` prints", "actual": mc[1][:400]}, checked, ""
+                for r_ in mtrue:
+                    if not set(_expand(pm[0], r_[:-1])) <= bsat:
+                        return {"mode": "climodel", "case": case, "expected": f"the model row covers only assignments that `-c {cx} -t` lists as satisfying", "actual": mc[1][:400]}, checked, ""
             # `-m -v`: the listing of the model = one line (none for an unsatisfiable formula) whose assignments satisfy the formula
             checked += 1
             case = json.dumps({"formula": f, "ordering": None, "options": ["-m", "-v"], "channel": "model"})
